@@ -364,6 +364,15 @@ func c15Exec(c c15Case) (out c15Result) {
 		if g.P(10) {
 			opts = append(opts, xsel.WithFunction("count", fn), nil)[:len(opts)+1] // shadowing, no nil option
 		}
+		switch g.Intn(8) {
+		case 0:
+			// a preset of the embedding program with nothing configured: nil maps assigned directly
+			opts = []xsel.ContextApply{func(c *xsel.ContextSettings) { c.NamespaceDecls, c.Variables, c.FunctionLibrary = nil, nil, nil }}
+		case 1:
+			opts = append(opts, func(c *xsel.ContextSettings) { c.NamespaceDecls = nil })
+		case 2:
+			opts = append(opts, func(c *xsel.ContextSettings) { c.Variables = nil; c.FunctionLibrary = nil })
+		}
 		res, err := xsel.Exec(c15World.docs[g.Intn(len(c15World.docs))], &gr, opts...)
 		r := classify(res, err)
 		r.Detail = strings.TrimSpace(r.Detail + " expr=" + src)
